@@ -450,7 +450,10 @@ func init() {
 				valid = false // an element without properties: outcome not prescribed
 			}
 			if nl := c.NLines; c.Fault.Kind == "cutl" && c.Fault.K == nl && nl > 0 {
-				valid = (c.Fault.J == 1 || !c.File.Lines[nl-1].Bin) && !strings.HasPrefix(c.Var, "noprops")
+				last := c.File.Lines[nl-1]
+				// (the newline after "end_header" delimits the body: a header-only file without it is not claimed valid)
+				endsWithHeader := len(last.Toks) > 0 && last.Toks[0].V == "end_header"
+				valid = (c.Fault.J == 1 || (!last.Bin && !endsWithHeader)) && !strings.HasPrefix(c.Var, "noprops")
 			}
 			for _, d := range cfDecoders(c.Fmt) {
 				if c.Var == "biglist" || strings.HasPrefix(c.Var, "biglist-") {
